@@ -56,8 +56,8 @@ package alpm
 //@   requires wfRange(r)
 //@   ensures and: result == (forall i int :: 0 <= i && i < len(r.constraints) ==> r.constraints[i].matches(version))   [C02 C20]
 
-//@ lemma c20-equal [C20]: forall c *constraint, v1, v2 *Version :: trigger(c.matches(v1), c.matches(v2)) && c != nil && c.version != nil && v1 != nil && v2 != nil && (c.operator == "=" || c.operator == "<" || c.operator == "<=" || c.operator == ">" || c.operator == ">=") && v1.Compare(v2) == 0 ==> c.matches(v1) == c.matches(v2)
-//@ lemma c20-convex [C20]: forall c *constraint, a, b, d *Version :: trigger(c.matches(a), c.matches(d), a.Compare(b), b.Compare(d)) && c != nil && c.version != nil && a != nil && b != nil && d != nil && (c.operator == "=" || c.operator == "<" || c.operator == "<=" || c.operator == ">" || c.operator == ">=") && a.Compare(b) <= 0 && b.Compare(d) <= 0 && c.matches(a) && c.matches(d) ==> c.matches(b)
+//@ lemma c20-equal [C20]: forall c *constraint, v1, v2 *Version :: trigger(c.matches(v1), c.matches(v2)) && c != nil && c.version != nil && v1 != nil && v2 != nil && v1.hasPkgrel == v2.hasPkgrel && v1.hasPkgrel == c.version.hasPkgrel && (c.operator == "=" || c.operator == "<" || c.operator == "<=" || c.operator == ">" || c.operator == ">=") && v1.Compare(v2) == 0 ==> c.matches(v1) == c.matches(v2)
+//@ lemma c20-convex [C20]: forall c *constraint, a, b, d *Version :: trigger(c.matches(a), c.matches(d), a.Compare(b), b.Compare(d)) && c != nil && c.version != nil && a != nil && b != nil && d != nil && a.hasPkgrel == b.hasPkgrel && b.hasPkgrel == d.hasPkgrel && a.hasPkgrel == c.version.hasPkgrel && (c.operator == "=" || c.operator == "<" || c.operator == "<=" || c.operator == ">" || c.operator == ">=") && a.Compare(b) <= 0 && b.Compare(d) <= 0 && c.matches(a) && c.matches(d) ==> c.matches(b)
 
 // ---- stored text (C18)
 
@@ -69,6 +69,6 @@ package alpm
 
 // lifting to whole ranges: an AND-range of comparator constraints treats versions that compare equal alike (the two
 // quantified sides are what Contains returns for v1 and v2, by its `and` clause)
-//@ lemma c20-range-equal [C20] uses c20-equal: forall r *VersionRange, v1, v2 *Version :: r != nil && v1 != nil && v2 != nil && wfRange(r) && (forall i int :: 0 <= i && i < len(r.constraints) ==> r.constraints[i].version != nil && (r.constraints[i].operator == "=" || r.constraints[i].operator == "<" || r.constraints[i].operator == "<=" || r.constraints[i].operator == ">" || r.constraints[i].operator == ">=")) && v1.Compare(v2) == 0 ==> ((forall i int :: 0 <= i && i < len(r.constraints) ==> r.constraints[i].matches(v1)) == (forall i int :: 0 <= i && i < len(r.constraints) ==> r.constraints[i].matches(v2)))
+//@ lemma c20-range-equal [C20] uses c20-equal: forall r *VersionRange, v1, v2 *Version :: r != nil && v1 != nil && v2 != nil && wfRange(r) && v1.hasPkgrel == v2.hasPkgrel && (forall i int :: 0 <= i && i < len(r.constraints) ==> r.constraints[i].version != nil && r.constraints[i].version.hasPkgrel == v1.hasPkgrel && (r.constraints[i].operator == "=" || r.constraints[i].operator == "<" || r.constraints[i].operator == "<=" || r.constraints[i].operator == ">" || r.constraints[i].operator == ">=")) && v1.Compare(v2) == 0 ==> ((forall i int :: 0 <= i && i < len(r.constraints) ==> r.constraints[i].matches(v1)) == (forall i int :: 0 <= i && i < len(r.constraints) ==> r.constraints[i].matches(v2)))
 // ... and the set a range without != accepts is convex in the order
-//@ lemma c20-range-convex [C20] uses c20-convex: forall r *VersionRange, a, b, d *Version :: r != nil && a != nil && b != nil && d != nil && wfRange(r) && (forall i int :: 0 <= i && i < len(r.constraints) ==> r.constraints[i].version != nil && (r.constraints[i].operator == "=" || r.constraints[i].operator == "<" || r.constraints[i].operator == "<=" || r.constraints[i].operator == ">" || r.constraints[i].operator == ">=")) && a.Compare(b) <= 0 && b.Compare(d) <= 0 && (forall i int :: 0 <= i && i < len(r.constraints) ==> r.constraints[i].matches(a)) && (forall i int :: 0 <= i && i < len(r.constraints) ==> r.constraints[i].matches(d)) ==> (forall i int :: 0 <= i && i < len(r.constraints) ==> r.constraints[i].matches(b))
+//@ lemma c20-range-convex [C20] uses c20-convex: forall r *VersionRange, a, b, d *Version :: r != nil && a != nil && b != nil && d != nil && wfRange(r) && a.hasPkgrel == b.hasPkgrel && b.hasPkgrel == d.hasPkgrel && (forall i int :: 0 <= i && i < len(r.constraints) ==> r.constraints[i].version != nil && r.constraints[i].version.hasPkgrel == a.hasPkgrel && (r.constraints[i].operator == "=" || r.constraints[i].operator == "<" || r.constraints[i].operator == "<=" || r.constraints[i].operator == ">" || r.constraints[i].operator == ">=")) && a.Compare(b) <= 0 && b.Compare(d) <= 0 && (forall i int :: 0 <= i && i < len(r.constraints) ==> r.constraints[i].matches(a)) && (forall i int :: 0 <= i && i < len(r.constraints) ==> r.constraints[i].matches(d)) ==> (forall i int :: 0 <= i && i < len(r.constraints) ==> r.constraints[i].matches(b))
